@@ -20,6 +20,7 @@ from sim import wire as W
 from sim.world import Run
 
 ID = "C22"
+HANG_WATCHDOG = True     # a parser that never returns inside the datagram / stream callback is caught by the harness watchdog
 LEVEL = "fault_enumeration"
 RUNS = {"quick": 2000, "thorough": 900000}
 BUDGET = {"quick": 100.0, "thorough": 3300.0}
@@ -69,7 +70,19 @@ def valid_item(rng: random.Random, uid: int) -> tuple[bytes, tuple]:
 
 def malformed_item(rng: random.Random) -> bytes:
     k = rng.choice(["version", "unknown_svc", "unimpl_svc", "empty_body", "short_body", "bad_status",
-                    "bad_hpai", "bad_struct_len", "trailing"])
+                    "bad_hpai", "bad_struct_len", "trailing", "bad_dib", "bad_dib"])
+    if k == "bad_dib":
+        # description blocks with impossible structure lengths (0, 1, beyond the frame) or unknown type codes, in the three
+        # services that carry them
+        svc = rng.choice([W.SEARCH_RES, W.DESCR_RES, W.SEARCH_RES_EXT])
+        pre = b"" if svc == W.DESCR_RES else W.hpai("10.0.0.2", 3671)
+        good = bytes((0x36, 0x01)) + bytes(52)      # device info block (length 54)
+        fam = bytes((0x06, 0x02, 0x02, 0x02, 0x04, 0x02))
+        bad = rng.choice([bytes((0x00, rng.choice([0x02, 0x03, 0x06, 0x07, 0xFE]))), bytes((0x01, 0x02)),
+                          bytes((0xF0, 0x02, 0x02, 0x01)), bytes((0x04, 0x55, 0x00, 0x00)), bytes((0x02,)),
+                          bytes((0x00, 0x01)) + bytes(52)])
+        body = pre + rng.choice([bad, good + bad, good + fam + bad, bad + good])
+        return W.frame(svc, body)
     if k == "version":
         body = bytes(rng.randrange(256) for _ in range(rng.randint(0, 6)))
         return bytes((6, rng.choice([0x11, 0x20, 0x00]))) + struct.pack(">HH", W.TUNNEL_ACK, 6 + len(body)) + body
@@ -264,6 +277,10 @@ def run(plan: dict[str, Any]) -> dict[str, Any]:
                           "prefix-before-hostile:" + _diff_sig(expected, delivered[:len(expected)]),
                           f"[{label}] frames before the hostile bytes were not delivered in order")
 
+    def _hangs():
+        from sim import harness as _Hm
+        return bool(_Hm.HANGS)
+
     async def one_tcp(chunks: list[bytes], label: str):
         peer = _Peer()
         peer.chunks = chunks
@@ -321,6 +338,8 @@ def run(plan: dict[str, Any]) -> dict[str, Any]:
             for mask in range(1 << max(0, n - 1)):
                 cuts = [i + 1 for i in range(n - 1) if mask >> i & 1]
                 await one_tcp(cut(cuts), f"mask={mask}")
+                if _hangs():
+                    break
                 if R.violations:
                     plan.setdefault("first_failing_mask", mask)
                     break
@@ -335,8 +354,18 @@ def run(plan: dict[str, Any]) -> dict[str, Any]:
                 else:
                     chunks = cut([c for c in ck["cuts"] if 0 < c < n])
                 await one_tcp(chunks, ck["mode"])
+                if _hangs():
+                    break
 
     R.execute(main())
+    from sim import harness as _H
+    if _H.HANGS:
+        # the library catches the watchdog's exception like any other error in a frame - what counts is that it had to fire.
+        # Everything else observed in this run is a consequence of the interruption and is not reported.
+        del R.violations[:]
+        R.violate("C22.no-escape", "hang-in-receive-callback",
+                  f"{'/'.join(sorted(set(_H.HANGS)))}() did not return within {_H.RUN_WALL_LIMIT:.0f} s of wall-clock time inside "
+                  f"the transport's receive callback (interrupted by the harness watchdog)")
     R.probes["chunkings"] += stats["chunkings"]
     kinds = "".join(i["k"] for i in items)
     R.extra_faults["tcp_chunkings" if cfg["proto"] == "tcp" else "udp_sequences"] += stats["chunkings"]
